@@ -725,6 +725,14 @@ fn setup_space_list_check(
 // binary ops must be preceded by a value or unary suffix and succeded by value or unary prefix
 // unary prefix must be preceded by unary prefix or binary and succeded by value or unary prefix
 // unary suffix must be preceded by value or unary suffix, and succeded by unary suffix or binary
+// a right-to-left binary operator composes with its neighbours exactly like a left-to-right one
+fn binary_class(definition: SecondaryDefinition) -> SecondaryDefinition {
+    match definition {
+        SecondaryDefinition::BinaryRightToLeft => SecondaryDefinition::BinaryLeftToRight,
+        d => d,
+    }
+}
+
 fn check_composition(
     previous: SecondaryDefinition,
     current: SecondaryDefinition,
@@ -732,6 +740,8 @@ fn check_composition(
     token: &LexerToken,
 ) -> Result<(), CompilerError> {
     trace!("Composition check between previous {:?} and current {:?}", previous, current);
+    let previous = binary_class(previous);
+    let current = binary_class(current);
     match (previous, current) {
         (SecondaryDefinition::Value, SecondaryDefinition::Value) if !check_for_list => composition_error(previous, current, &token),
         (SecondaryDefinition::None, SecondaryDefinition::EndGrouping)
